@@ -58,6 +58,8 @@ def _sim_replay(ctx, cov, procs, maxops, num, depth, race, tag):
     s = open(cfgp).read()
     s = re.sub(r"Procs <- \w+", "Procs <- %s" % procs, s)
     s = re.sub(r"MaxOps = \d+", "MaxOps = %d" % maxops, s)
+    if procs == "P1" and ctx.seed % 2 == 1:
+        s = s.replace("DupAt = 99", "DupAt = 2")     # the SECOND extension re-uses the first one's string: a third can be attached to either
     name = "MC_Sys_sim_%s.cfg" % tag
     open(os.path.join(ctx.scratch, name), "w").write(s)
     workers = 4
@@ -326,7 +328,7 @@ def c06(ctx):
     cold = 0
     for k in range(6 if quick else 60):
         rpc = os.path.join(ctx.scratch, "cold%d.json" % k)
-        pc_ = ctx.vdrive(["coldstart", "-out", rpc], race=True, env={"GORACE": "log_path=%s exitcode=0" % os.path.join(ctx.scratch, "race-cold%d" % k)}, check=False)
+        pc_ = ctx.vdrive(["coldstart", "-out", rpc] + (["-first-extend"] if k % 2 == 1 else []), race=True, env={"GORACE": "log_path=%s exitcode=0" % os.path.join(ctx.scratch, "race-cold%d" % k)}, check=False)
         cvc = _crash_violation(ctx, pc_, "coldstart")
         if cvc:
             violations.append(cvc)
